@@ -1204,7 +1204,7 @@ pub fn object_set_prototype_of(
         }
     };
 
-    obj_ref.borrow_mut().prototype = new_proto;
+    crate::value::set_prototype_checked(&obj_ref, new_proto)?;
     // Object was passed in by caller, already owned - no guard needed
     Ok(Guarded::unguarded(obj))
 }
